@@ -16,7 +16,9 @@ import Gotree.Lemmas.C02NewickEq
 import Gotree.Gen.C02Goroutine
 import Gotree.Gen.C02Dispatch
 import Gotree.Model.C02Dispatch
+import Gotree.Model.C02Files
 import Gotree.Lemmas.C02Writers
+import Gotree.Lemmas.C02WritersP
 
 namespace Gotree.C02
 open Gotree
@@ -379,16 +381,99 @@ theorem formatCode_is_the_table :
       (if p.1 == "default" then Readers.formatCode "anything else" else Readers.formatCode p.1) ==
         (Readers.formatConsts.idxOf p.2 : Int)) = true := by decide
 
-/-- the guards of the two index expressions of `ReadUntilSemiColon` in the working tree are the ones the model
-    transcribes (`len(ln) > 0`, `i > 0`; the pinned variant of F5 had `i >= 0`: `readUntilSemiColon_pinned_fails`) -/
-theorem readUntilSemiColon_guards : Gen.C02.rusIndexGuards = [">0"] ∧ Gen.C02.rusLenGuards = [">0"] := by decide
+/-- a comparison `x <op> lit` extracted from the source, evaluated -/
+def evalCmp (g : String × Int) (x : Int) : Option Bool :=
+  if g.1 == ">" then some (decide (x > g.2)) else if g.1 == ">=" then some (decide (x ≥ g.2))
+  else if g.1 == "<" then some (decide (x < g.2)) else if g.1 == "<=" then some (decide (x ≤ g.2))
+  else if g.1 == "==" then some (x == g.2) else if g.1 == "!=" then some (x != g.2) else none
 
-/-- the hypothesis of `unsupported_format_reported` holds for the two codes the harness hands to the entry points
-    (formats `bad` = 7, `badm` = -1), and the default branches answer as stated on a concrete input -/
-example : ((7 : Int) < 0 ∨ (7 : Int) > 3) ∧ ((-1 : Int) < 0 ∨ (-1 : Int) > 3) := by decide
-example : (Readers.readTreeReader {} 7).cls = "err" := by decide
-example : (match Readers.readMultiTrees {} (-1) with | .ok [r] => r.tree.isNone | _ => false) = true := by decide
-example : Readers.formatCode "nexus" = 1 ∧ Readers.formatCode "NEXUS" = 0 ∧ Readers.formatCode "" = 0 := by decide
+/-- the guards of the two index expressions of `ReadUntilSemiColon` in the working tree MEAN what the model
+    transcribes (`i > 0` for the scan back, `len(ln) > 0` around it): every comparison of `i` / of `len(ln)` with a
+    literal found in the function is evaluated on probes and must agree with `> 0` — so `i >= 1` stays green, the
+    pinned `i >= 0` of F5 (`readUntilSemiColon_pinned_fails`) does not -/
+theorem readUntilSemiColon_guards :
+    Gen.C02.rusIndexGuards ≠ [] ∧ Gen.C02.rusLenGuards ≠ [] ∧
+    (Gen.C02.rusIndexGuards.all fun g => ([-2, -1, 0, 1, 2, 3, 17] : List Int).all fun x => evalCmp g x == some (decide (x > 0))) = true ∧
+    (Gen.C02.rusLenGuards.all fun g => ([0, 1, 2, 3, 17] : List Int).all fun x => evalCmp g x == some (decide (x > 0))) = true := by
+  decide
+
+/-! ### the file-level entry points (Model/C02Files.lean): GetReader, ReadTree, cmd readTrees / readTree -/
+
+/-- `utils.GetReader` never panics, whatever the name leads to (nothing, a directory, an empty or one-byte file,
+    the standard input, a network source) and whatever gzip makes of the content -/
+theorem getReader_total (f : Files.FileIn) (m : String) : Files.getReader f ≠ .panic m := by
+  unfold Files.getReader
+  split
+  · simp
+  · split
+    · split <;> simp
+    · simp
+
+/-- a missing file, and a `.gz` name whose content gzip refuses (an empty file, a one-byte file, a directory, text),
+    are reported as errors by `GetReader` -/
+theorem getReader_refusals (f : Files.FileIn) :
+    (Files.rawSource f = none → ∃ m, Files.getReader f = .err m) ∧
+    (Files.hasSuffix f.name ".gz" = true → f.gz = none → ∃ m, Files.getReader f = .err m) := by
+  constructor
+  · intro h; exact ⟨"open", by simp [Files.getReader, h]⟩
+  · intro hs hg
+    unfold Files.getReader
+    split
+    · exact ⟨_, rfl⟩
+    · simp [hs, hg]
+
+/-- ★ `utils.ReadTree`, cmd `readTrees`, cmd `readTree`: total for every file case, every format code, and every
+    way the decoded structures are attached to the bytes -/
+theorem file_entry_points_total (f : Files.FileIn) (mk : List UInt8 → Readers.Input) (format : Int) :
+    (Files.readTree f mk format).crashed = false ∧ (Files.readTrees f mk format).crashed = false ∧
+    (Files.cmdReadTree f mk format).crashed = false := by
+  have hp := getReader_total f
+  have h1 : (Files.readTree f mk format).crashed = false := by
+    unfold Files.readTree
+    split
+    · rfl
+    · rename_i m h; exact absurd h (hp m)
+    · exact (entry_points_total _ format).1
+  refine ⟨h1, ?_, ?_⟩
+  · unfold Files.readTrees
+    split
+    · rfl
+    · rename_i m h; exact absurd h (hp m)
+    · exact (entry_points_total _ format).2
+  · unfold Files.cmdReadTree
+    split
+    · exact h1
+    · rfl
+
+/-- … and an `ok` outcome always comes with a record -/
+theorem file_entry_points_report_or_deliver (f : Files.FileIn) (mk : List UInt8 → Readers.Input) (format : Int) :
+    (∀ rs, Files.readTree f mk format = .ok rs → rs ≠ []) ∧ (∀ rs, Files.readTrees f mk format = .ok rs → rs ≠ []) := by
+  constructor
+  · intro rs h
+    unfold Files.readTree at h
+    split at h
+    · cases h
+    · cases h
+    · exact (entry_points_report_or_deliver _ format).1 rs h
+  · intro rs h
+    unfold Files.readTrees at h
+    split at h
+    · cases h
+    · cases h
+    · exact (entry_points_report_or_deliver _ format).2 rs h
+
+/-- the cases the round-7b brief names, on concrete names -/
+example : (match Files.getReader { name := "t.nw.gz", entry := .file [], gz := none } with | .err _ => true | _ => false) = true := by decide
+example : (match Files.getReader { name := "t.nw.gz", entry := .file [0x1f], gz := none } with | .err _ => true | _ => false) = true := by decide
+example : (match Files.getReader { name := "t.nw", entry := .dir } with | .ok [] => true | _ => false) = true := by decide
+example : (match Files.getReader { name := "t.nw", entry := .missing } with | .err _ => true | _ => false) = true := by decide
+example : Files.sourceOf "-" = .stdin ∧ Files.sourceOf "https://x" = .http ∧ Files.sourceOf "itol://1" = .itol ∧ Files.sourceOf "a/b.nw" = .path := by decide
+
+/-- `fileutils.Readln` before fix 34f70d2 (`readlnRaw`): an unterminated last line that fills the buffer exactly came
+    with the error and was dropped by the callers' `for err == nil` loop; the current model returns it -/
+theorem readln_pinned_drops_last_line :
+    (Readers.readlnRaw [⟨[97, 98], true⟩]).2.1 = true ∧ Readers.readln [⟨[97, 98], true⟩] = ([97, 98], false, []) := by
+  constructor <;> rfl
 
 /-! ### written back (Model/C02Writers.lean) -/
 
@@ -400,6 +485,30 @@ theorem phyloxml_written_well_nested (t : T) :
   · have h := Writers.wellNested_node 1 none t [] 0
     simpa [Writers.phylogenyLines, Writers.wellNested] using h
   · exact Writers.nOpen_node 1 none t
+
+/-- ★ "written back without crashing", with the index expressions of the writers as explicit panic sites
+    (Model/C02WritersP.lean: `n.br[i]` of Node.Newick, `n.Edges()[i]` of phyloxml.writeClade, on nodes that keep
+    their neighbours and their branches in two separate lists): on the structure `ConnectNodes` builds for ANY tree
+    value the writers do not panic, and they write what the tree-value models write (`Tree.Nexus()` adds no index
+    expression to `Tree.Newick()`: it ranges over `Tips()`) -/
+theorem written_back_no_panic (t : T) :
+    Writers.newickP (Writers.P.ofT t) = .ok (Writers.newickText t).toList ∧
+    Writers.pxNodeP 1 none (Writers.P.ofT t) = .ok (Writers.phylogenyLines t) :=
+  ⟨Writers.newickP_ofT t, Writers.pxNodeP_ofT 1 none t⟩
+
+/-- … in the words of the property: every tree value can be traversed, indexed and written back without a crash -/
+theorem delivered_usable_and_written (t : T) :
+    reinit t ≠ .panic ∧ walkAll t = .ok ∧
+    (∀ m, Writers.newickP (Writers.P.ofT t) ≠ .panic m) ∧ (∀ m, Writers.pxNodeP 1 none (Writers.P.ofT t) ≠ .panic m) := by
+  refine ⟨reinit_no_panic t, walkAll_ok t, ?_, ?_⟩
+  · intro m; rw [(written_back_no_panic t).1]; simp
+  · intro m; rw [(written_back_no_panic t).2]; simp
+
+/-- the panic sites are live: a node with one child and no branch (a structure `ConnectNodes` never builds) -/
+theorem writers_misaligned_panic :
+    Writers.newickP (.node ⟨"", []⟩ [.node ⟨"a", []⟩ [] []] []) = .panic Writers.idxPanic ∧
+    Writers.pxNodeP 1 none (.node ⟨"", []⟩ [.node ⟨"a", []⟩ [] []] []) = .panic Writers.idxPanic := by
+  constructor <;> rfl
 
 /-- `Tree.Nexus()` declares as many taxa as it lists, and no more than the tree has nodes -/
 theorem nexus_written_ntax (t : T) : t.tipNames.length ≤ nNodes t := tipNames_le_nodes t
